@@ -365,6 +365,7 @@ func runCheck(o checkOpts) int {
 				}
 			}
 			if isKnown {
+				allOK = false
 				rec.Status = "known-finding"
 				records = append(records, rec)
 				continue
